@@ -66,7 +66,7 @@ def interval_counts(c, maxint, exact_counts):
 def stage_area(ctx, res, stats, batch):
     rng = ctx.rng(1)
     cases = []
-    n_ts, n_syn = ctx.n(45, 900), ctx.n(60, 1200)
+    n_ts, n_syn = ctx.n(45, 450), ctx.n(60, 800)
     while len(cases) < n_ts:
         ts, info = gen.gen_ts(rng, historical=0.2, polytomy=0.2, gaps=0.15, n=int(rng.integers(2, 8)),
                               trees=int(rng.choice([1, 2, 3, 5, 8])))
@@ -198,7 +198,7 @@ def check_point_map(res, stats, xs, fixed, ob, rb, out, replay):
 def stage_pwl(ctx, res, stats, batch):
     rng = ctx.rng(2)
     cases = []
-    for _ in range(ctx.n(80, 1500)):
+    for _ in range(ctx.n(80, 1000)):
         ob, rb = rc.gen_breaks(rng)
         xs = rc.gen_points(rng, ob)
         fixed = rng.random(xs.size) < 0.2
@@ -306,7 +306,7 @@ def compare_posterior(res, stats, c, m, out, replay, where):
 
 def stage_posterior(ctx, res, stats, batch):
     rng = ctx.rng(3)
-    cases = [posterior_case(rng) for _ in range(ctx.n(40, 800))]
+    cases = [posterior_case(rng) for _ in range(ctx.n(40, 500))]
     ids = [add_posterior(batch, c) for c in cases]
     yield
     for i, c in zip(ids, cases):
@@ -323,7 +323,7 @@ def stage_fits(ctx, res, stats, batch):
     from .. import gen as g
     rng = ctx.rng(4)
     runs = []
-    n_target = ctx.n(14, 250)
+    n_target = ctx.n(14, 150)
     tries = 0
     while len(runs) < n_target and tries < 4 * n_target:
         tries += 1
@@ -434,7 +434,7 @@ def stage_fits(ctx, res, stats, batch):
 def new_stats():
     return dict(area_modes={}, hyp_in_range=0, timescale_raised={}, timescale_ok=0, timescale_zero_mass=0, hyp_breaks_strict=0,
                 merged=0, hyp_all_intervals_informative=0, pwl_pre_true=0, pwl_pre_false=0, order_reversed_within_rounding=0, posterior_rows=0,
-                fit_raised={}, rescale_outcomes={}, recorded_calls=0, recover_checked=0, f5_excluded=0, f5_from_recovery=0)
+                fit_raised={}, rescale_outcomes={}, recorded_calls=0, recover_checked=0)
 
 
 def run(ctx):
